@@ -172,6 +172,16 @@ def handle (c : Case) : Res :=
   match IluEvents.evProp c evs with
   | some m => Res.propFalse m r.tags
   | none =>
+    -- "info counts the zero pivots it replaced": every nonzero return of ilu_?pivotL and every pivot replaced inside
+    -- ilu_?drop_row (hook phase 2) is one replaced pivot of the (single) factorization of this case
+    let info := c.pInt "info"; let n := c.pNat "n"
+    let dz := c.int "ie.dropnzp"
+    let inPiv := (evs.toList.filter fun e => e.haveExit && e.info != 0).length
+    let inDrop := (dz.getD 0 0).toNat
+    if c.p "refact" "0" != "1" ∧ dz.size == 2 ∧ evs.all (·.haveExit) ∧ 0 ≤ info ∧ info ≤ (n : Int) ∧ info ≠ ((inPiv + inDrop : Nat) : Int) then
+      Res.propFalse s!"{c.ty}gsisx: info = {info} but {inPiv + inDrop} pivots were replaced ({inPiv} by ilu_{c.ty}pivotL, {inDrop} inside ilu_{c.ty}drop_row)" r.tags
+    else
+    let r := if inDrop > 0 then { r with tags := r.tags ++ ["ie=droprow-replaced"] } else r
     let (cm, tg) := IluEvents.evCorr c evs
     match cm with
     | some m => Res.corr m (r.tags ++ tg)
